@@ -108,6 +108,33 @@ __CPROVER_ensures(__CPROVER_return_value == (g_numlen > 0 && NUMERAL && 0 <= g_v
 __CPROVER_ensures(__CPROVER_return_value ==> (long)*out == g_val)
 __CPROVER_ensures(!__CPROVER_return_value ==> *out == __CPROVER_old(*out))
 ;
+/* ---- K6 read_enum<iarf_e> (the same template serves line_end_e and token_pos_e): a literal, or a reference to an option OF THE SAME TYPE ---- */
+extern const unsigned OT_IARF_V;
+_Bool g_lit_ok; unsigned g_lit_val;       /* convert_string(value text): is it a literal of the enumeration, and which */
+const char *g_ref_text;                   /* the canonical text of the referenced option's value (another string object) */
+const char *c_option_text_contract(const struct GenericOption *o)
+__CPROVER_assigns()
+__CPROVER_ensures(__CPROVER_return_value == g_ref_text)
+;
+_Bool c_convert_string_iarf_contract(const char *in, unsigned *out)
+__CPROVER_requires(IN_STRING(in) || in == g_ref_text)
+__CPROVER_assigns(*out)
+__CPROVER_ensures(!__CPROVER_return_value ==> *out == __CPROVER_old(*out))
+__CPROVER_ensures(__CPROVER_same_object(in, g_in) ==> (__CPROVER_return_value == g_lit_ok && (g_lit_ok ==> *out == g_lit_val)))
+;
+_Bool read_enum_iarf_contract(const char *in, struct Option_iarf *out)
+__CPROVER_requires(STR_OK(in) && g_in == in && __CPROVER_is_fresh(out, SIZEOF_Option_iarf) && GenericOption_m_type(out) == OT_IARF_V)
+__CPROVER_requires(__CPROVER_is_fresh(g_ref, SIZEOF_Option_iarf) && REF_TYPE <= 6 && __CPROVER_is_fresh(g_ref_text, 8) && g_warn_n < 1000 && !g_is_ref)
+__CPROVER_assigns(Option_iarf_m_val(out), g_warn_n, g_is_ref)
+/* rejected => a diagnostic, and the option is exactly as before */
+__CPROVER_ensures(!__CPROVER_return_value ==> (Option_iarf_m_val(out) == __CPROVER_old(Option_iarf_m_val(out)) && g_warn_n > __CPROVER_old(g_warn_n)))
+__CPROVER_ensures(__CPROVER_return_value ==> g_warn_n == __CPROVER_old(g_warn_n))
+/* a literal of the enumeration is stored as written */
+__CPROVER_ensures(g_lit_ok ==> (__CPROVER_return_value && Option_iarf_m_val(out) == g_lit_val))
+/* otherwise the text must name an option of the same type, whose value is taken over; "a value of the wrong type produces a diagnostic" */
+__CPROVER_ensures((!g_lit_ok && __CPROVER_return_value) ==> (g_is_ref && REF_TYPE == OT_IARF_V && Option_iarf_m_val(out) == Option_iarf_m_val(g_ref)))
+__CPROVER_ensures((!g_lit_ok && g_is_ref && REF_TYPE == OT_IARF_V) ==> __CPROVER_return_value)
+;
 /* ---- K3 Option<bool>::read ---- */
 _Bool bool_read_contract(struct Option_bool *o, const char *in)
 __CPROVER_requires(STR_OK(in) && g_in == in && __CPROVER_is_fresh(o, SIZEOF_Option_bool) && __CPROVER_is_fresh(g_ref, SIZEOF_Option_bool) && REF_TYPE <= 6 && g_warn_n < 1000 && !g_is_ref)
